@@ -260,6 +260,28 @@ func cleanupLogic(c *Ctx) {
 	}
 	q.add("COND", "shift >= 0 at the reslice", pos, pickS(pos, "every path to buffer[s:] established s >= 0", "the reslice is reachable with a negative shift (negative cleaner results must be ignored, not applied): "+got.String()), sl)
 	// upper bound: s <= len(buffer)
+	// (the value may come out of a helper that is analysed as part of this function)
+	low, lowFn := sl.Low, q.fn
+	for {
+		call, isCall := low.(*ssa.Call)
+		if !isCall {
+			break
+		}
+		k := an.TransparentCallee(call)
+		if k == nil {
+			break
+		}
+		var rets []*ssa.Return
+		for _, b := range k.Blocks {
+			if r, ok := b.Instrs[len(b.Instrs)-1].(*ssa.Return); ok {
+				rets = append(rets, r)
+			}
+		}
+		if len(rets) != 1 || len(rets[0].Results) != 1 {
+			break
+		}
+		low, lowFn = rets[0].Results[0], k
+	}
 	upper := func(v ssa.Value, pred, succ *ssa.BasicBlock, at ssa.Instruction) bool {
 		if call, ok := v.(*ssa.Call); ok {
 			if bi, isB := call.Call.Value.(*ssa.Builtin); isB && bi.Name() == "min" {
@@ -276,9 +298,9 @@ func cleanupLogic(c *Ctx) {
 		d := P.Lin(v).Minus(lenB)
 		var g an.DNF
 		if pred != nil {
-			g = P.EdgeCond(q.fn, nil, pred, succ, keepForms(d))
+			g = P.EdgeCond(lowFn, nil, pred, succ, keepForms(d))
 		} else {
-			g = P.PathCond(q.fn, nil, at, keepForms(d))
+			g = P.PathCond(lowFn, nil, at, keepForms(d))
 		}
 		if len(g) == 0 {
 			return false
@@ -287,15 +309,17 @@ func cleanupLogic(c *Ctx) {
 		return okI
 	}
 	clamped := true
-	if ph, ok := sl.Low.(*ssa.Phi); ok {
+	if ph, ok := low.(*ssa.Phi); ok {
 		for i, e := range ph.Edges {
 			pred := ph.Block().Preds[i]
 			if !upper(e, pred, ph.Block(), nil) {
 				clamped = false
 			}
 		}
+	} else if lowFn == q.fn {
+		clamped = upper(low, nil, nil, sl)
 	} else {
-		clamped = upper(sl.Low, nil, nil, sl)
+		clamped = upper(low, nil, nil, lowFn.Blocks[len(lowFn.Blocks)-1].Instrs[0])
 	}
 	q.add("COND", "shift <= len(buffer) at the reslice", clamped, pickS(clamped, "every value reaching s is len(buffer) or was compared <= len(buffer)", "an over-large cleaner result reaches buffer[s:] unclamped (would panic or evict beyond the buffer)"), sl)
 	// nil-ing stays below the shift
@@ -305,14 +329,24 @@ func cleanupLogic(c *Ctx) {
 			return false
 		}
 		ia, ok := st.Addr.(*ssa.IndexAddr)
-		return ok && an.IsLoadOfField(ia.X, "Buffer.buffer")
+		if !ok {
+			return false
+		}
+		isB, _ := sliceOfField(P, ia.X, "Buffer.buffer")
+		return isB
 	}) {
 		ia := in.(*ssa.Store).Addr.(*ssa.IndexAddr)
-		d := P.Lin(ia.Index).Minus(sL)
-		g := P.PathCond(q.fn, nil, in, keepForms(d))
-		okb := len(g) > 0
-		if okb {
-			okb, _ = an.ImpliesDNF(g, an.DNF{conj(lit(d, an.SNeg))})
+		var okb bool
+		if _, via := sliceOfField(P, ia.X, "Buffer.buffer"); via != nil {
+			// buffer[:shift][x]: the index expression itself cannot reach an element at or beyond the shift
+			okb = (via.Low == nil || isZero(via.Low)) && via.High != nil && P.Lin(via.High).Equal(sL)
+		} else {
+			d := P.Lin(ia.Index).Minus(sL)
+			g := P.PathCond(q.fn, nil, in, keepForms(d))
+			okb = len(g) > 0
+			if okb {
+				okb, _ = an.ImpliesDNF(g, an.DNF{conj(lit(d, an.SNeg))})
+			}
 		}
 		q.add("COND", "only the dropped prefix is nil-ed", okb, pickS(okb, "index < shift on every path to the element store", "an element at or beyond the shift can be nil-ed (a retained value would be destroyed)"), in)
 	}
@@ -326,14 +360,33 @@ func consumerOffsets(c *Ctx) {
 	P := c.P
 	b := q.param(0)
 	apps := P.CallsTo(q.fn, "builtin:append")
+	// the other idiom: result := make([]int, len(consumers)); result[i] = ...; i++
+	var idxStores []ssa.Instruction
+	for _, in := range an.AllInstrs(q.fn, func(in ssa.Instruction) bool { _, ok := in.(*ssa.Store); return ok }) {
+		if ia, ok := in.(*ssa.Store).Addr.(*ssa.IndexAddr); ok {
+			for _, src := range P.Sources(ia.X) {
+				if mk, isMk := src.(*ssa.MakeSlice); isMk && P.Lin(mk.Len).Equal(aLen(b+".consumers")) {
+					idxStores = append(idxStores, in)
+				}
+			}
+		}
+	}
 	nexts := an.AllInstrs(q.fn, func(in ssa.Instruction) bool { _, ok := in.(*ssa.Next); return ok })
-	if !q.need(apps, "LIN", "append of a relative offset") || !q.need(nexts, "LIN", "range over Buffer.consumers") {
+	if !q.need(append(append([]ssa.Instruction{}, apps...), idxStores...), "LIN", "append of a relative offset") || !q.need(nexts, "LIN", "range over Buffer.consumers") {
 		return
 	}
 	nx := nexts[0].(*ssa.Next)
 	if rg, ok := nx.Iter.(*ssa.Range); !ok || !an.IsLoadOfField(rg.X, "Buffer.consumers") {
 		q.add("PROV", "ranges over every registered consumer", false, "the range is not over Buffer.consumers", nx)
 		return
+	}
+	contribution := func(elem ssa.Value, a ssa.Instruction) {
+		want := an.LinAtom("range(" + b + ".consumers)#2").Minus(aF(b + ".offset"))
+		q.expectLin("LIN", "relative offset = committed - base", elem, want, a)
+		// unconditional in the range body
+		got := P.PathCond(q.fn, nx.Block(), a, nil)
+		uncond := len(got) == 1 && len(got[0]) == 1
+		q.add("COND", "every consumer contributes an offset", uncond, pickS(uncond, "the contribution depends only on the range's own ok", "the contribution of a consumer's offset is conditional: some consumer would not gate eviction: "+got.String()), a)
 	}
 	for _, a := range apps {
 		// appended element
@@ -355,12 +408,23 @@ func consumerOffsets(c *Ctx) {
 			q.undecided("LIN", "relative offset = committed - base", "cannot find the appended element", a)
 			continue
 		}
-		want := an.LinAtom("range(" + b + ".consumers)#2").Minus(aF(b + ".offset"))
-		q.expectLin("LIN", "relative offset = committed - base", elem, want, a)
-		// unconditional in the range body
-		got := P.PathCond(q.fn, nx.Block(), a, nil)
-		uncond := len(got) == 1 && len(got[0]) == 1
-		q.add("COND", "every consumer contributes an offset", uncond, pickS(uncond, "the append depends only on the range's own ok", "the append of a consumer's offset is conditional: some consumer would not gate eviction: "+got.String()), a)
+		contribution(elem, a)
+	}
+	for _, st := range idxStores {
+		contribution(st.(*ssa.Store).Val, st)
+		// the slot index is a counter that advances once per consumer
+		idx := st.(*ssa.Store).Addr.(*ssa.IndexAddr).Index
+		okc := false
+		if ph, isPh := idx.(*ssa.Phi); isPh && len(ph.Edges) == 2 {
+			for i, e := range ph.Edges {
+				if cv, isC := constInt(e); isC && cv == 0 {
+					if inc, isB := ph.Edges[1-i].(*ssa.BinOp); isB && inc.Op == token.ADD && P.Lin(inc).Equal(P.Lin(ph).AddC(1)) {
+						okc = P.Before(q.fn, an.Is(st), inc) || inc.Block() == st.Block()
+					}
+				}
+			}
+		}
+		q.add("LIN", "each consumer gets its own slot", okc, pickS(okc, "the slot index starts at 0 and advances by one per consumer", "the slot index is not a per-consumer counter: offsets could overwrite each other or leave zero slots (a zero offset blocks, a missing one unblocks eviction)"), st)
 	}
 }
 
